@@ -79,9 +79,18 @@ def check(ctx):
                      'package descriptor, resource_* counters to a resource entry; row counts take the counted rows, byte counts '
                      'the tell() of the finished file, hashes a hexdigest')
     n = 0
+    # methods that were inlined into their (only) callers are judged there, with their parameters bound to the caller's values
+    norm = {}
+    inlined_helpers = set()
     for c in res.subclasses(db):
         for m0 in c.methods.values():
-            m = ctx.N(m0, keep=('inc_attr', 'set_attr', 'get_attr'))
+            norm[m0.qualname] = ctx.N(m0, keep=('inc_attr', 'set_attr', 'get_attr'))
+            inlined_helpers |= {h for _c, h in getattr(norm[m0.qualname], 'inlined', [])}
+    for c in res.subclasses(db):
+        for m0 in c.methods.values():
+            if m0.qualname in inlined_helpers:
+                continue
+            m = norm[m0.qualname]
             for call in own_nodes(m.node):
                 if not (isinstance(call, ast.Call) and isinstance(call.func, ast.Attribute) and call.func.attr in SETTERS
                         and len(call.args) == 3):
